@@ -76,6 +76,7 @@ def _strategy():
                      gp.programs(allow_negcycle=True, max_preds=2, neg_bias=True, max_consts=2),
                      gp.programs(allow_negcycle=True, max_preds=3, neg_bias=True, allow_evidence=False,
                                  allow_nonground_query=False, max_consts=1),
+                     gp.dense_cycles(neg=True), gp.dense_cycles(neg=True, max_atoms=4),
                      gp.programs()).map(lambda p: {"prog": p})
 
 
